@@ -46,6 +46,10 @@ pub struct DocV {
     /// as a history step: send didClose for the document (if open) instead of a new version
     #[serde(default)]
     pub close: bool,
+    /// render fixtures that repeat a name of this document too (e.g. the same fixture name in two
+    /// places of one module) instead of dropping the repetition
+    #[serde(default)]
+    pub dups: bool,
 }
 
 #[derive(Clone, Debug, Serialize, Deserialize)]
@@ -81,7 +85,7 @@ pub fn render(level: u8, d: &DocV) -> String {
     let visible = |l: u8| l % 4 == 3 || l % 4 <= level;
     let mut seen = BTreeSet::new();
     for f in &d.fixtures {
-        if !seen.insert(f.k % 3) {
+        if !seen.insert(f.k % 3) && !d.dups {
             continue;
         }
         let scope = crate::spec::SCOPES[f.scope as usize % 5];
@@ -189,7 +193,8 @@ fn docv(level: u8) -> impl Strategy<Value = DocV> {
     let fx = (0u8..3, prop_oneof![3 => Just(0u8), 1 => 1u8..5], vec(dep.clone(), 0..=2), prop_oneof![3 => Just(vec![]), 1 => vec(dep.clone(), 1..=2)]).prop_map(|(k, scope, deps, body)| Fx { k, scope, deps, body });
     let ts = (0u8..3, vec(dep.clone(), 0..=2), prop_oneof![1 => Just(vec![]), 2 => vec(dep, 1..=3)]).prop_map(|(k, params, body)| Tst { k, params, body });
     let nt = if level == 2 { 1..=3usize } else { 0..=1usize };
-    (vec(fx, 0..=3), vec(ts, nt), prop_oneof![9 => Just(false), 1 => Just(true)], prop_oneof![6 => Just(false), 1 => Just(true)]).prop_map(|(fixtures, tests, broken, close)| DocV { fixtures, tests, broken, close })
+    (vec(fx, 0..=3), vec(ts, nt), prop_oneof![9 => Just(false), 1 => Just(true)], prop_oneof![6 => Just(false), 1 => Just(true)], prop_oneof![2 => Just(false), 1 => Just(true)])
+        .prop_map(|(fixtures, tests, broken, close, dups)| DocV { fixtures, tests, broken, close, dups })
 }
 
 fn conf() -> impl Strategy<Value = Conf> {
@@ -424,7 +429,7 @@ pub fn check_session(ctx: &Ctx, s: &Session, info: &mut CaseInfo) -> Outcome {
 }
 
 pub fn run(ctx: &Ctx) {
-    ctx.run_prop_shrink("sessions", ctx.tier.pick(400, 12_000), 8, 300, session, |s, info| check_session(ctx, s, info));
+    ctx.run_prop_shrink("sessions", ctx.tier.pick(1_500, 60_000), 16, 300, session, |s, info| check_session(ctx, s, info));
 }
 
 pub fn judge(ctx: &Ctx, sub: &str, case: &Value) -> Option<Outcome> {
